@@ -47,7 +47,14 @@ def gen_prog(rng):
         dep = rng.choice([0.0, 0.0, 0.25]) if i > 0 else 0.0     # shift when the previous bit is true
         if pa + max(pb, 0.0) * 0.25 + dep >= 1.0:
             dep = 0.0        # keep every site probability inside the open domain (0,1) for theta in [0,1]
-        sites.append({"est": est, "a": pa, "b": pb, "dep": dep})
+        # the site may sit inside a lax.cond branch taken when the previous outcome is True (otherwise its
+        # value is False): everything after the cond is then part of the site's continuation
+        sites.append({"est": est, "a": pa, "b": pb, "dep": dep, "incond": False})
+    # lax.cond traces both branches, so a scripted (sampled) site inside or after a cond would consume scripted
+    # outcomes at trace time: only enumeration sites, with only enumeration sites after them, are put in a branch
+    for i in range(1, n):
+        if all(t["est"] == "enum" for t in sites[i:]) and not any(t["est"] == "penum" for t in sites[:i]) and rng.random() < 0.5:
+            sites[i]["incond"] = True
     leaf = {"c0": rng.choice([0.0, 1.0, -2.0]), "c1": rng.choice([0.0, 1.0, 2.0]),
             "w": [rng.choice([1.0, -1.0, 3.0]) for _ in range(n)],
             "wt": [rng.choice([0.0, 1.0, 2.0]) for _ in range(n)],       # bit_i * theta terms
@@ -74,14 +81,11 @@ def build(prog, script, used=None):
             p = s["a"] + s["b"] * theta * 0.25
             if s["dep"] and bits:
                 p = p + jnp.where(bits[-1], s["dep"], 0.0)
-            if s["est"] == "enum":
-                b = flip_enum(p)
-            elif s["est"] == "penum":
-                b = flip_enum_parallel(p)
-            elif s["est"] == "reinforce":
-                b = my_reinforce(p)
+            draw = {"enum": flip_enum, "penum": flip_enum_parallel, "reinforce": my_reinforce, "mvd": flip_mvd}[s["est"]]
+            if s.get("incond") and bits:
+                b = jax.lax.cond(bits[-1], lambda p=p, draw=draw: draw(p), lambda: jnp.asarray(False))
             else:
-                b = flip_mvd(p)
+                b = draw(p)
             bits.append(b)
         lf = prog["leaf"]
         v = lf["c0"] + lf["c1"] * theta
@@ -268,6 +272,31 @@ def mvdvec_case(rng):
     return c
 
 
+def unseeded_repeat_case(rng):
+    """eager, unseeded, repeated calls: the phantom branch of a measure-valued site followed by a sampled site
+    must see fresh draws on every call (mean of 400 gradient estimates against the exact derivative, 5 sigma)"""
+    from genjax import flip_reinforce
+    a, b = rng.choice([0.2, 0.3]), rng.choice([0.2, 0.3])
+    th = rng.choice([0.3, 0.4, 0.5])
+    c = {"kind": "unseeded_repeat", "theta": th, "a": a, "b": b}
+    try:
+        @expectation
+        def f(theta):
+            x = flip_mvd(theta)
+            y = flip_reinforce(a + b * theta)
+            return jnp.where(x, 2.0, 0.0) * jnp.where(y, 3.0, 1.0) + theta
+        exact = lambda t: t * 2.0 * (1.0 + 2.0 * (a + b * t)) + t   # noqa: E731
+        d_exact = (exact(th + 1e-6) - exact(th - 1e-6)) / 2e-6
+        gs = np.asarray([float(f.grad_estimate(jnp.float32(th))) for _ in range(400)], dtype=np.float64)
+        se = float(gs.std() / np.sqrt(len(gs)))
+        c["mean"], c["se"], c["exact"] = float(gs.mean()), se, float(d_exact)
+        c["ok"] = bool(abs(gs.mean() - d_exact) <= 5.0 * se + 1e-9 and se > 0)
+    except Exception as e:  # noqa: BLE001
+        c["err"] = type(e).__name__ + ": " + str(e)[:200]
+        c["ok"] = False
+    return c
+
+
 def consistency_case(rng, k=None):
     """seeded draws of a sampled ADEV primitive follow the density the primitive is scored with
     (needed for the score-function estimators to be unbiased under seed): goodness of fit of 3000
@@ -276,14 +305,18 @@ def consistency_case(rng, k=None):
     import scipy.stats as st
     import genjax
     N = 3000
+    # (the enumeration primitives are sampled too: by the pure continuation of an upstream measure-valued site)
     prims = ["flip_reinforce", "geometric_reinforce", "normal_reinforce", "uniform_reinforce",
              "normal_reparam", "uniform_reparam", "flip_mvd", "multivariate_normal_reinforce",
-             "multivariate_normal_reparam", "multivariate_normal_diag_reparam"]
+             "multivariate_normal_reparam", "multivariate_normal_diag_reparam",
+             "flip_enum", "flip_enum_parallel", "categorical_enum_parallel"]
     which = rng.choice(prims) if k is None else prims[k % len(prims)]
     c = {"kind": "consistency", "prim": which}
     try:
         prim = getattr(genjax, which, None) or getattr(adev, which)
-        if which.startswith("flip"):
+        if which.startswith("categorical"):
+            args = (jnp.asarray(rng.choice([[0.0, 1.0, -1.0], [0.5, -0.5], [1.0, 1.0, 0.0, -2.0]]), dtype=jnp.float32),)
+        elif which.startswith("flip"):
             args = (jnp.float32(rng.choice([0.125, 0.3, 0.75])),)
         elif which.startswith("geometric"):
             args = (jnp.float32(rng.choice([-1.0, 0.3, 1.5])),)
@@ -300,7 +333,13 @@ def consistency_case(rng, k=None):
         c["args"] = [np.asarray(a).tolist() for a in args]
         draw = prim.sample if hasattr(prim, "logpdf") else prim
         xs = np.asarray(seed(modular_vmap(lambda: draw(*args), axis_size=N))(jax.random.key(rng.randrange(10 ** 6))))
-        if which.startswith("flip") or which.startswith("geometric"):
+        if which.startswith("categorical"):
+            lg = np.asarray(args[0], dtype=np.float64)
+            pm = np.exp(lg) / np.exp(lg).sum()
+            obs = np.array([(xs.astype(np.int64) == k).sum() for k in range(len(pm))], dtype=np.float64)
+            stat = float(((obs - pm * N) ** 2 / (pm * N)).sum())
+            pv = float(st.chi2.sf(stat, len(pm) - 1))
+        elif which.startswith("flip") or which.startswith("geometric"):
             ks = list(range(0, 2 if which.startswith("flip") else 80))
             scorer = prim if hasattr(prim, "logpdf") else flip     # flip_mvd is a bare primitive of flip's law
             pm = np.array([math.exp(float(scorer.logpdf(jnp.asarray(bool(k)) if which.startswith("flip") else jnp.float32(k), *args))) for k in ks])
@@ -372,6 +411,16 @@ def det_programs():
         "switch3": (lambda x: jax.lax.switch(jnp.int32(2), [lambda v: v, lambda v: v * v, lambda v: v * v * v], x), "s"),
         "relu_custom_jvp": (lambda x: jax.nn.relu(x) * x, "s"),
         "logsumexp": (lambda x: jax.nn.logsumexp(x * x), "v"),
+        # a zero-derivative primitive applied to a value with a live tangent as the LAST operation of the
+        # program / of a cond branch (its JVP rule returns a symbolic zero)
+        "floor_last": (lambda x: jnp.floor(x * 3.0), "s"),
+        "sign_last": (lambda x: jnp.sign(x * x - 1.0), "s"),
+        "round_last": (lambda x: jnp.round(x * 2.5), "s"),
+        "stop_gradient_last": (lambda x: jax.lax.stop_gradient(x * x), "s"),
+        "compare_cast_last": (lambda x: (x * x > 1.0).astype(jnp.float32), "s"),
+        "argmax_cast_last": (lambda x: jnp.argmax(x * x).astype(jnp.float32), "v"),
+        "cond_floor_branch": (lambda x: jax.lax.cond(x > 0.5, lambda v: jnp.floor(v * 3.0), lambda v: v * v, x), "s"),
+        "cond_sign_branch_then_use": (lambda x: jax.lax.cond(x > 0.5, lambda v: jnp.sign(v), lambda v: jnp.ceil(v), x) * x, "s"),
         "while_loop": (lambda x: jax.lax.while_loop(lambda c: c[0] < 3, lambda c: (c[0] + 1, c[1] * 1.5), (0, x))[1], "s"),
     }
 
@@ -441,10 +490,16 @@ def main():
     out, sd, n, which = sys.argv[1], int(sys.argv[2]), int(sys.argv[3]), sys.argv[4]
     rng = random.Random(sd)
     cases = []
+    if which == "c11" and sd % 4 == 0:
+        cases.append(unseeded_repeat_case(rng))
     if which == "c11":
         for i in range(n):
-            cases.append(consistency_case(rng, sd * 3 + i // 6) if i % 6 == 5 else (catenum_case(rng) if i % 12 == 4 else mvdvec_case(rng)) if i % 6 == 4
+            cases.append((catenum_case(rng) if i % 12 == 4 else mvdvec_case(rng)) if i % 6 == 4
                          else c11_case(rng) if i % 3 != 2 else reparam_case(rng))
+        # every sampled primitive's keyed sampler in every run: shard k takes primitives k, k+4, k+8, ...
+        for j in range(4):
+            if (sd % 4) + 4 * j < 13:
+                cases.append(consistency_case(rng, (sd % 4) + 4 * j))
     else:
         cases.extend(canon_cases())
         names = sorted(det_programs())
